@@ -23,7 +23,7 @@ PROP = "C06"
 LEAN = {"module": "Pygom.Props.C06",
         "required": ["Pygom.C06.broadcast_spec", "Pygom.C06.broadcast_accepts_iff", "Pygom.C06.solution_selection",
                      "Pygom.C06.cost_is_loss", "Pygom.C06.square_cost_zero_at_truth"]}
-BUDGET = {"quick": {"cases": 1500, "broadcast": 60, "per_batch": 40},
+BUDGET = {"quick": {"cases": 1000, "broadcast": 50, "per_batch": 40},
           "thorough": {"cases": 40000, "broadcast": 600, "per_batch": 60}}
 RULE = ("random bounded models (gen_model, autonomous, 2-4 states, 1-4 parameters, short horizons) and catalogue models "
         "(SIR, SEIR, Lotka_Volterra, FitzHugh); theta, x0, uniform / non-uniform grids of 3-7 observation times; 1-3 observed "
@@ -239,7 +239,7 @@ def run_loss(case):
     W = LC.expand(case["weights"][0], case["weights"][1], n, p)
     evaluated = 0
     margins = [0.0]
-    for cls in LC.CLASSES:
+    for cls in case.get("classes", LC.CLASSES):
         if cls not in data or (cls in LC.NEEDS_POSITIVE and lowest < 0.02):
             tags.append("skipped:%s:trajectory-not-positive" % cls)
             continue
